@@ -10,7 +10,7 @@ Not decided: that call_later(t) fires after t seconds (asyncio contract), clock 
 """
 from __future__ import annotations
 
-from .ordering import Ctx, arming, atomic_notifications, cancel_on_removal, every_removal_reported, expiry_once
+from .ordering import Ctx, arming, atomic_notifications, cancel_on_removal, every_removal_reported, expiry_once, reject_before_record
 
 
 def check(run, prog, tier):
@@ -31,3 +31,6 @@ def check(run, prog, tier):
     expiry_once(cx, "T3")
     every_removal_reported(cx, "T3")
     atomic_notifications(cx, "A1", "expired")
+    # a timer must have a record that owns it: an entry the 'new' callback rejected is not recorded and may not leave a timer
+    # (it would fire for the key later and remove a successor)
+    reject_before_record(cx, "T2")
